@@ -90,7 +90,7 @@ def verify_contract(registry, repo: Repo, contract, options=None, only_alt=None)
 def _verify_alternative(registry, repo, contract, mod, fnode, cnode, names, combo, rep, tag, options):
     V.reset_names()  # deterministic symbol names per (function, alternative): verdicts do not depend on what ran before
     mod._global_cache.clear()
-    ctx = Ctx(repo, registry, fn_label=contract.qualname + tag, options=dict(options))
+    ctx = Ctx(repo, registry, fn_label=contract.qualname + tag, options={**{k: v for k, v in contract.options.items() if k in ("no_merge",)}, **dict(options)})
     ctx.current_contract = contract
     ctx.current_mod = mod
     ctx.loop_ordinals, ctx.loop_ordinals_by_line = loop_ordinals(fnode)
@@ -170,6 +170,8 @@ def _verify_alternative(registry, repo, contract, mod, fnode, cnode, names, comb
             if "__axioms__" in fin.env:
                 env["__axioms__"] = fin.env["__axioms__"]
             env["result"] = o.value if o.kind == "return" else None
+            if contract.qualname.endswith(".__init__") and env["result"] is None and "self" in fin.env:
+                env["result"] = fin.env["self"]  # a constructor's result is the object it initialised
             env["__pre__"] = pre_env
             env["__final__"] = fin.env
             pst = State(env, fin.pc, [], mod, cnode)
